@@ -175,7 +175,7 @@ func BuildFanP(e *Env, spec FanSpec, id, curveId string, pwm0, mode0 int, px str
 		// every script first looks at a fault-control file (absent in normal operation):
 		// "fail" -> exit 3, "garbage" -> prints garbage
 		fc := func(op string) string {
-			return fmt.Sprintf("m=$(cat %s 2>/dev/null)\ncase \"$m\" in\n fail) exit 3;;\n garbage) echo abc; exit 0;;\nesac\n", filepath.Join(sub, "fault_"+op))
+			return fmt.Sprintf("m=$(cat %s 2>/dev/null)\ncase \"$m\" in\n fail) exit 3;;\n garbage) echo abc; exit 0;;\n blank) echo ' '; exit 0;;\n crlf) printf '\\r\\n'; exit 0;;\nesac\n", filepath.Join(sub, "fault_"+op))
 		}
 		writeScript(filepath.Join(sub, "setpwm.sh"), fc("set")+fmt.Sprintf("echo \"$1\" >> %s\nprintf '%%s' \"$1\" > %s\n", wlog, pwmFile))
 		writeScript(filepath.Join(sub, "getpwm.sh"), fc("get")+fmt.Sprintf("cat %s\n", pwmFile))
@@ -394,8 +394,26 @@ func (c *Ctl) Cycle(cv int, dt int) (req int, cerr error) {
 	return req, cerr
 }
 
+// PwmReadFails: when set, the PWM read-back fails during the next RPM polls (hwmon/file fans)
+var _ = 0
+
 // Rpm performs one measureRpm with the fan reporting r (ok=false: the RPM read fails).
-func (c *Ctl) Rpm(r int, ok bool) {
+func (c *Ctl) Rpm(r int, ok bool) { c.RpmX(r, ok, false) }
+
+// RpmX: like Rpm; pwmFail makes the PWM read-back of this poll fail as well (the RPM sample cannot be
+// attributed to a PWM value, the average must be updated all the same)
+func (c *Ctl) RpmX(r int, ok bool, pwmFail bool) {
+	if pwmFail && c.Spec.Kind != "cmd" {
+		defer func() {
+			c.Env.mu.Lock()
+			c.Env.OnRead = nil
+			c.Env.mu.Unlock()
+		}()
+	}
+	c.rpmInner(r, ok, pwmFail)
+}
+
+func (c *Ctl) rpmInner(r int, ok bool, pwmFail bool) {
 	if c.Spec.Kind == "cmd" {
 		if ok {
 			must(os.WriteFile(c.Env.Path("rpm"), []byte(strconv.Itoa(r)), 0644))
@@ -404,11 +422,18 @@ func (c *Ctl) Rpm(r int, ok bool) {
 		}
 	} else {
 		c.Env.Set("rpm", r)
-		if !ok {
+		if !ok || pwmFail {
 			c.Env.mu.Lock()
+			seenPwm := 0
 			c.Env.OnRead = func(e *Env, name string) (int, error, bool) {
-				if name == "rpm" {
+				if name == "rpm" && !ok {
 					return 0, fmt.Errorf("injected read error"), true
+				}
+				if name == "pwm" && pwmFail {
+					seenPwm++
+					if seenPwm > 1 { // the feature probe succeeds, the read that follows fails
+						return 0, fmt.Errorf("injected read error"), true
+					}
 				}
 				return 0, nil, false
 			}
@@ -426,7 +451,7 @@ func (c *Ctl) Rpm(r int, ok bool) {
 	if !ok {
 		r = 0 // a failed read is used as reading 0
 	}
-	c.Rec.Emit(Ev{"ev": "Rpm", "r": r, "ok": ok, "avgm": milli(before), "avgm2": milli(c.Fan.GetRpmAvg())})
+	c.Rec.Emit(Ev{"ev": "Rpm", "r": r, "ok": ok, "pwmFail": pwmFail, "avgm": milli(before), "avgm2": milli(c.Fan.GetRpmAvg())})
 }
 
 // SetAvg sets the fan's RPM average directly (abstract measurement step of the model).
